@@ -3,7 +3,7 @@
     directory.  Tied to the binary by the syscall traces and the fault enumeration of `jv check C18`.
     Not in the model: crash consistency below the syscall layer (no fsync). *)
 From Coq Require Import List ZArith.
-From JaqV Require Import Base.Bytes Cli.InPlace Proofs.InPlaceLaws.
+From JaqV Require Import Base.Bytes Cli.InPlace Proofs.InPlaceLaws Proofs.InPlaceMany.
 Import ListNotations.
 
 (** at every crash point (= after every prefix of the operations of one file) the file holds its original bytes,
@@ -30,6 +30,33 @@ Theorem failure_leaves_file : forall (j : job) (d : dir),
   lookup d' (j_path j) = lookup d (j_path j) /\ lookup d' (j_tmp j) = None.
 Proof. exact failure_state. Qed.
 Print Assumptions failure_leaves_file.
+
+(** several files (distinct, no temporary name among them): at every crash point of the whole run every file holds its
+    original bytes or, only when its own run succeeded, exactly its complete output *)
+Theorem atomic_many : forall (js : list job) (d : dir) k, wf js ->
+  (forall j, In j js -> data_at d (j_path j) <> None) ->
+  let d' := run_ops d (firstn k (all_ops js)) in
+  forall j, In j js ->
+    data_at d' (j_path j) = data_at d (j_path j) \/ (j_ok j = true /\ data_at d' (j_path j) = Some (new_data j)).
+Proof. exact InPlaceMany.atomic_many. Qed.
+Print Assumptions atomic_many.
+
+(** files processed before a failing one keep their new contents, the failing one and the later ones their old *)
+Theorem files_before_and_after_a_failure : forall (pre post : list job) (d : dir), wf (pre ++ post) ->
+  (forall j, In j pre -> j_ok j = true) ->
+  (match post with bad :: _ => j_ok bad = false | [] => True end) ->
+  let d' := run_ops d (all_ops (pre ++ post)) in
+  (forall j, In j pre -> data_at d' (j_path j) = Some (new_data j))
+  /\ (forall j, In j post -> lookup d' (j_path j) = lookup d (j_path j)).
+Proof. exact InPlaceMany.outcome_many. Qed.
+Print Assumptions files_before_and_after_a_failure.
+
+(** no temporary file is left behind on completion, however far the run got *)
+Theorem no_temporary_file_left : forall (js : list job) (d : dir), wf js ->
+  (forall j, In j js -> lookup d (j_tmp j) = None) ->
+  forall j, In j js -> lookup (run_ops d (all_ops js)) (j_tmp j) = None.
+Proof. exact InPlaceMany.every_tmp_removed. Qed.
+Print Assumptions no_temporary_file_left.
 
 Example atomic_example :
   let j := {| j_path := 1; j_tmp := 100; j_chunks := [[zb 50]; [zb 10]]; j_ok := true; j_mode := 420%Z |} in
